@@ -31,6 +31,7 @@ class CallMixin:
     # ------------------------------------------------------------ plain names
     def call_name(self, name, node, st, cx):
         uni = self.uni
+        name = (self.con.get("aliases") or {}).get(name, name)
         if name in ("all", "any") and len(node.args) == 1:
             return self.quant(node, st, cx, name == "all")
         if name == "old":
@@ -184,6 +185,13 @@ class CallMixin:
         if key in uni.contracts:
             args, kwargs = self.args_of(node, st, cx)
             return self.call_contract(st, cx, key, uni.contracts[key], None, args, kwargs, node)
+        if name + ".__init__" in uni.contracts:
+            # constructor of a class that is opaque to the engine: fresh abstract value + its (assumed) contract
+            selfv = SV(VRef(ops.alloc_ref(st, uni.class_id(name))), K("opaque", name))
+            args, kwargs = self.args_of(node, st, cx)
+            self.call_contract(st, cx, name + ".__init__", uni.contracts[name + ".__init__"], selfv, args, kwargs,
+                               node, ctor=True)
+            return selfv
         raise OutOfSubset("call of %s() has no contract (line %s)" % (name, node.lineno))
 
     def isinstance_f(self, st, v, clsnode):
